@@ -8426,6 +8426,82 @@ func ruleCopyConstructorCoversFields(r *Run) {
 			}
 		}
 		collect(f, f.Params[0], 0)
+		// one level down: the exported fields of an embedded Properties struct are each stored into by the
+		// constructor (through the promoted selector) or by the helper the Properties value is handed to
+		for i := 0; i < st.NumFields(); i++ {
+			fld := st.Field(i)
+			if fld.Name() != "Properties" {
+				continue
+			}
+			pst, ok := fld.Type().Underlying().(*types.Struct)
+			if !ok {
+				continue
+			}
+			sub := map[string]bool{}
+			var scan func(g *ssa.Function, depth int)
+			scan = func(g *ssa.Function, depth int) {
+				for _, b := range g.Blocks {
+					for _, in := range b.Instrs {
+						var addr ssa.Value
+						switch x := in.(type) {
+						case *ssa.Store:
+							addr = x.Addr
+						case *ssa.MapUpdate:
+							addr = x.Map
+						case ssa.CallInstruction:
+							if bi, ok := x.Common().Value.(*ssa.Builtin); ok && bi.Name() == "copy" && len(x.Common().Args) > 0 {
+								addr = x.Common().Args[0]
+							} else if callee := staticCallee(x); callee != nil && len(callee.Blocks) > 0 && depth < 2 && callee.Signature.Recv() != nil && len(x.Common().Args) > 0 {
+								rt := x.Common().Args[0].Type().String()
+								if strings.HasSuffix(rt, pkg[strings.LastIndex(pkg, "/")+1:]+".Properties") || strings.HasSuffix(rt, ".Data") && strings.Contains(rt, pkg) {
+									scan(callee, depth+1)
+								}
+							}
+						}
+						// walk the address down to a field of a Properties struct
+						for i := 0; i < 8 && addr != nil; i++ {
+							switch x := addr.(type) {
+							case *ssa.FieldAddr:
+								if pt, ok := x.X.Type().(*types.Pointer); ok {
+									if nm, ok := pt.Elem().(*types.Named); ok && nm.Obj().Name() == "Properties" && nm.Obj().Pkg() != nil && strings.HasSuffix(nm.Obj().Pkg().Path(), pkg) {
+										n, _, _ := fieldName(x)
+										sub[n] = true
+										addr = nil
+										continue
+									}
+								}
+								addr = x.X
+							case *ssa.IndexAddr:
+								addr = x.X
+							case *ssa.UnOp:
+								addr = x.X
+							default:
+								addr = nil
+							}
+						}
+					}
+				}
+			}
+			scan(f, 0)
+			for j := 0; j < pst.NumFields(); j++ {
+				pf := pst.Field(j)
+				if !pf.Exported() {
+					continue
+				}
+				ts := pf.Type().String()
+				if pf.Embedded() && (strings.Contains(ts, "/datastore.") || strings.HasPrefix(strings.TrimPrefix(ts, "*"), "sync.")) {
+					continue
+				}
+				nFields++
+				construct := fmt.Sprintf("%s.Data.CopyPropertiesFrom:field-Properties.%s", pkg, pf.Name())
+				if reason, exc := r.exceptionFor("R19.13", construct); exc {
+					r.check(true, construct, "exception: "+reason, "", w.fpos(f))
+					continue
+				}
+				r.check(sub[pf.Name()], construct, "copied",
+					"the property "+pf.Name()+" (field of "+pkg+".Properties) is not set when an instance is made as a copy: the copy differs from its source in that property", w.fpos(f))
+			}
+		}
 		for i := 0; i < st.NumFields(); i++ {
 			fld := st.Field(i)
 			if !fld.Exported() {
